@@ -297,8 +297,12 @@ def finish(prop, a, dsl, reports, t0, seed, extra):
         for key, rep in reports.items():
             for label, c in rep['clauses'].items():
                 if c['status'] != 'unsat' or a.v:
+                    mdl = c['model']
+                    show = os.environ.get('PYVC_SHOW')
+                    if show and isinstance(mdl, dict):
+                        mdl = {k: v for k, v in mdl.items() if re.search(show, k)}
                     print('  %-9s %s  paths=%d %s' % ({'unsat': 'ok', 'sat': 'REFUTED', 'unknown': 'UNKNOWN'}[c['status']], label, c['paths'],
-                                                    (json.dumps(c['model'], default=str)[:600] + ' | ' + c['detail'][:300]) if c['status'] == 'sat' else ''))
+                                                    (json.dumps(mdl, default=str)[:900] + ' | ' + c['detail'][:300] + ' | path=' + str(c.get('path'))) if c['status'] == 'sat' else ''))
     for label, path, reproduced, c, out in violations:
         rel = os.path.relpath(path, HERE)
         if reproduced:
